@@ -152,6 +152,9 @@ func (in *Interp) zero(t types.Type) Value {
 	if isTimeType(t) {
 		return TimeV{NS: mkInt(0)}
 	}
+	if isNamed(t, "reflect", "Value") {
+		return RValue{}
+	}
 	switch u := t.Underlying().(type) {
 	case *types.Basic:
 		switch {
@@ -378,4 +381,13 @@ func describe(v Value) string {
 		return "&" + describe(*x)
 	}
 	return fmt.Sprintf("%T", v)
+}
+
+func isNamed(t types.Type, pkg, name string) bool {
+	n, ok := t.(*types.Named)
+	if !ok {
+		return false
+	}
+	o := n.Obj()
+	return o.Pkg() != nil && o.Pkg().Path() == pkg && o.Name() == name
 }
